@@ -5,7 +5,8 @@
    parse_lines = parse_script after line splitting; llines = the logical lines (index of first physical line, text);
    pfold = the fold of pstep over them (Model/ScriptX.v, proved equal to ploop in Proofs/ScriptFacts.v). *)
 From BS Require Import Model.Base Model.Regex Model.ExprParser Model.Script Model.ScriptX Model.PErr
-  Proofs.ScriptFacts Proofs.PErrFacts Proofs.C06 Proofs.C06Cols Proofs.C06Progress Proofs.NumLit Proofs.Total.
+  Proofs.ScriptFacts Proofs.PErrFacts Proofs.C06 Proofs.C06Cols Proofs.C06Progress Proofs.NumLit Proofs.Total
+  Proofs.ExprFuel Proofs.TotalFuel Proofs.C06Shift Proofs.C06ShiftCont.
 From BS Require Import Model.Num Gen.Unicode Gen.Regexes.
 
 (* ---- (1) accounting: an accepted text leaves nothing open and every logical line was folded exactly once ---- *)
@@ -101,9 +102,65 @@ Theorem C06_step_renumber : forall g ps n line,
 Proof. exact pstep_map. Qed.
 Print Assumptions C06_step_renumber.
 
-(* C06_shift_partial: the property also says "simple valid statement lines" in front shift by one and change nothing
-   else; that clause is NOT proved here (the model keeps positions into the statement list in its if-frames, so the
-   statement needs a second commutation lemma); it is checked by the direct oracle and the correspondence. *)
+(* SIMPLE STATEMENT LINES in front (Proofs/C06Shift.v).  prefix_stmts pre P: every physical line of `pre` is a comment / blank
+   line, or a one-line simple statement — not a comment, no continuation backslash, classified by the regenerated statement
+   regexes as assignment / expression statement / label / jump / jumpif / return with an expression that parses (simple_line);
+   P = the statements of the simple lines in order.  Then the result for pre ++ lines is the result for lines with every
+   reported line number + |pre|; error text, line text and column unchanged; an accepted script is P ++ (the script of lines). *)
+Theorem C06_shift_simple : forall pre P lines start, prefix_stmts pre P ->
+  parse_lines (pre ++ lines) start = map_sres (fun n => length pre + n) (fun s => P ++ s) (parse_lines lines start).
+Proof. exact parse_lines_prefix_shift. Qed.
+Print Assumptions C06_shift_simple.
+
+(* the same for parse_script, the prefix given as leading chunks *)
+Theorem C06_shift_simple_script : forall c1 c2 pre P start, split_chunks c1 = ROk pre -> prefix_stmts pre P ->
+  parse_script (c1 ++ c2) start = map_sres (fun n => length pre + n) (fun s => P ++ s) (parse_script c2 start).
+Proof. exact parse_script_prefix_shift. Qed.
+Print Assumptions C06_shift_simple_script.
+
+(* the failing case spelled out: same message, same line text, same column, line number + |pre| *)
+Theorem C06_shift_simple_err : forall pre P lines start e, prefix_stmts pre P ->
+  parse_lines lines start = RErr e ->
+  parse_lines (pre ++ lines) start =
+  RErr {| e_msg := e_msg e; e_line := e_line e; e_col := e_col e; e_lineno := option_map (fun n => length pre + n) (e_lineno e) |}.
+Proof. exact parse_lines_prefix_err. Qed.
+Print Assumptions C06_shift_simple_err.
+
+Theorem C06_shift_simple_fails_iff : forall pre P lines start, prefix_stmts pre P ->
+  ((exists e, parse_lines (pre ++ lines) start = RErr e) <-> (exists e, parse_lines lines start = RErr e)).
+Proof. exact parse_lines_prefix_iff. Qed.
+Print Assumptions C06_shift_simple_fails_iff.
+
+(* the second commutation lemma behind it: the model keeps POSITIONS into the statement list in its if-frames, so a step
+   commutes with the explicit state shift  shift_ps P  (P prepended to the global statement list; the jump positions of the
+   frames that belong to the global list moved by |P|; frames of an open function body untouched), in every state reachable
+   by the fold (JInv), for every P that does not end in an include statement *)
+Theorem C06_step_shift : forall P ps n line, last_is_include P = None -> JInv ps ->
+  pstep (shift_ps P ps) n line = omap (shift_ps P) (pstep ps n line).
+Proof. exact pstep_shift. Qed.
+Print Assumptions C06_step_shift.
+(* the same with prefix statements that are themselves CONTINUED over several physical lines (Proofs/C06ShiftCont.v).
+   gprefix pre P: the line front end turns the physical lines `pre` into complete logical lines (nothing pending at the end
+   of pre), and the TEXT of each logical line is a simple statement (simple_text: classified as assignment / expression
+   statement / label / jump / jumpif / return whose expression parses); P = their statements.  The line numbers move by the
+   number of PHYSICAL lines |pre|.  C06_shift_simple is the special case of one physical line per statement. *)
+Theorem C06_shift_simple_continued : forall pre P lines start, gprefix pre P ->
+  parse_lines (pre ++ lines) start = map_sres (fun n => length pre + n) (fun s => P ++ s) (parse_lines lines start).
+Proof. exact parse_lines_gprefix_shift. Qed.
+Print Assumptions C06_shift_simple_continued.
+
+Theorem C06_shift_simple_continued_script : forall c1 c2 pre P start, split_chunks c1 = ROk pre -> gprefix pre P ->
+  parse_script (c1 ++ c2) start = map_sres (fun n => length pre + n) (fun s => P ++ s) (parse_script c2 start).
+Proof. exact parse_script_gprefix_shift. Qed.
+Print Assumptions C06_shift_simple_continued_script.
+
+Theorem C06_shift_simple_is_continued_case : forall pre P, prefix_stmts pre P -> gprefix pre P.
+Proof. exact prefix_stmts_gprefix. Qed.
+
+(* The shift clause is now proved for comment / blank / simple statement lines (one-line or continued).  Outside the theorem,
+   by design: `include` lines in front (an include line MERGES into a directly following include statement, so "changes
+   nothing else" is false for them — kstep_shift needs a prefix that does not end in an include statement) and function /
+   block statements (not "simple").  The oracle's `shift-*` classes keep checking the clause on the implementation. *)
 
 (* ---- (4) totality: the only host exceptions the model can report ---- *)
 Theorem C06_total_partial : forall chunks start w,
@@ -149,6 +206,28 @@ Print Assumptions C06_step_no_host.
 Theorem C06_total : forall chunks start w, parse_script chunks start <> RHost w.
 Proof. exact parse_script_total. Qed.
 Print Assumptions C06_total.
+
+(* ... and the model's OWN fuel never runs out (Proofs/ExprFuel.v, Proofs/TotalFuel.v): the regex engine never answers MFuel,
+   re.sub / re.split never run out, and the expression parser's fuel 2*|text|+4 bounds its recursion depth (parse_unary needs
+   2n+1, parse_binary 2n+2, parse_args 2n+3 on n characters; `((((` needs 2n+2) *)
+Theorem C06_expr_parser_fuel_suffices : forall text, parse_expression text <> EFuel.
+Proof. exact parse_expression_no_fuel. Qed.
+Print Assumptions C06_expr_parser_fuel_suffices.
+
+Theorem C06_no_fuel : forall chunks start, parse_script chunks start <> RFuel.
+Proof. exact parse_script_no_fuel. Qed.
+Print Assumptions C06_no_fuel.
+
+(* so: for EVERY input, parse_script returns a script or a BareScriptParserError — nothing else *)
+Theorem C06_total_returns : forall chunks start,
+  (exists s, parse_script chunks start = ROk s) \/ (exists e, parse_script chunks start = RErr e).
+Proof. exact parse_script_returns. Qed.
+Print Assumptions C06_total_returns.
+
+Theorem C06_expr_total_returns : forall text,
+  (exists e, parse_expression text = EOk e) \/ (exists msg c, parse_expression text = EErr msg c).
+Proof. exact parse_expression_returns. Qed.
+Print Assumptions C06_expr_total_returns.
 
 Theorem C06_no_index_error : forall chunks start, parse_script chunks start <> RHost (U "IndexError").
 Proof. exact parse_script_no_index_error. Qed.
@@ -203,6 +282,40 @@ Proof.
     by (vm_compute; reflexivity).
   split; [exact N|]. eexists. split; [exact E|]. split; [reflexivity|].
   destruct (pstep_err_column _ _ _ _ N E) as [H|H]; [discriminate H | exact H].
+Qed.
+
+Definition C06_ex_pre : list str :=
+  [U "x = 1 + 2"; U "  # note"; U "fn(x, 'a')"; U ""; U "top:"; U "jumpif (x > 1) top"; U "jump top"; U "return x * 2"; U "return"].
+
+Example C06_ex_prefix : exists P, prefix_stmts C06_ex_pre P /\ length P = 7.
+Proof.
+  eexists. split.
+  - unfold C06_ex_pre.
+    repeat first
+      [ apply PS_nil
+      | apply PS_comment; [vm_compute; reflexivity|]
+      | eapply PS_simple; [split; [vm_compute; reflexivity | split; [vm_compute; reflexivity | eexists; split; [vm_compute; reflexivity | reflexivity]]]|] ].
+  - reflexivity.
+Qed.
+
+(* the shift on a failing script, through the theorem: 9 lines in front, the error of line 2 of the rest is reported at 5 + 9 + 1 *)
+Example C06_ex_shift_simple :
+  parse_lines (C06_ex_pre ++ [U "if x:"; U "  y = (2 +"; U "endif"]) 5 =
+  RErr {| e_msg := U "Syntax error"; e_line := U "  y = (2 +"; e_col := 11; e_lineno := Some 15 |}.
+Proof.
+  destruct C06_ex_prefix as (P & H & _).
+  assert (E : parse_lines [U "if x:"; U "  y = (2 +"; U "endif"] 5 =
+              RErr {| e_msg := U "Syntax error"; e_line := U "  y = (2 +"; e_col := 11; e_lineno := Some 6 |}) by (vm_compute; reflexivity).
+  rewrite (parse_lines_prefix_err _ _ _ _ _ H E). reflexivity.
+Qed.
+
+Example C06_ex_gprefix : exists P,
+  gprefix [U "x = 1 + \00005c"; U "   # inside"; U "    2"; U "fn(x, \00005c  "; U "  'a')"; U ""] P /\ length P = 2.
+Proof.
+  eexists. split.
+  - eexists. eexists. split; [vm_compute; reflexivity|]. split; [reflexivity|].
+    repeat (constructor; [eexists; split; [vm_compute; reflexivity | reflexivity]|]). constructor.
+  - reflexivity.
 Qed.
 
 Example C06_ex_comment_lines : Forall (fun c => is_comment c = ROk true) [U ""; U "   "; U "  # c \00005c"; U "#"].
